@@ -193,6 +193,9 @@ func commitWith(wt *git.Worktree, msg string, n int, parents []plumbing.Hash) (p
 	return wt.Commit(msg, &git.CommitOptions{AllowEmptyCommits: true, Author: sig, Committer: sig, Parents: parents})
 }
 
+// execFiles > 0: every second file (counted from execFiles) is written with mode 0755.
+var execFiles int
+
 func writeVersion(dir string, p *progen.Program) error {
 	want := map[string]bool{}
 	for i, f := range p.Files {
@@ -205,7 +208,13 @@ func writeVersion(dir string, p *progen.Program) error {
 		if err := os.MkdirAll(filepath.Dir(full), 0755); err != nil {
 			return err
 		}
-		if err := os.WriteFile(full, []byte(p.Render(i)), 0644); err != nil {
+		// some files carry the executable bit (git then records mode 100755 for them)
+		mode := os.FileMode(0644)
+		if execFiles > 0 && (i+execFiles)%2 == 0 {
+			mode = 0755
+		}
+		os.Remove(full)
+		if err := os.WriteFile(full, []byte(p.Render(i)), mode); err != nil {
 			return err
 		}
 	}
@@ -345,6 +354,11 @@ func RunC20(cfg simrt.Config, o world.Opts) *world.Result {
 			for _, e := range expected {
 				logf("expected diagnostic: %s", e)
 			}
+		}
+		execFiles = 0
+		if simrt.Flip("c20.executable-files", 0.15) {
+			execFiles = 1 + ch("c20.executable-which", 2)
+			res.Count("c20.repositories-with-executable-thrift-files", 1)
 		}
 		// scratch repository
 		os.RemoveAll(repo)
